@@ -178,7 +178,7 @@ def histories(tier, seed):
 
 
 PROGS_Q = ['lu(2x2)', 'x*x', 'sin(x)*x', 'x/(1+x*x)', 'sum(x*exp(x)/(1+x0*x1)+sin(x)*x[::-1])', 'tan(x)*x', 'buffer', 'buffer-overwrite', 'exp(dot)']
-PROGS_T = PROGS_Q + ['x[1:]*x[:-1]', 'log(sum sq)', 'prod', 'x**3', 'outer', 'sqrt(x)*x[0]', 'expit', 'erf', 'x*x[::-1]']
+PROGS_T = PROGS_Q + ['x[1:]*x[:-1]', 'log(sum sq)', 'prod', 'x**3', 'sqrt(x)*x[0]', 'expit', 'erf', 'x*x[::-1]']
 
 
 def units(tier, seed):
